@@ -236,9 +236,29 @@ def prepare(work, nkeys):
 
 def reset(work):
     shutil.copy(os.path.join(work, "wallet.old"), os.path.join(work, "wallet.json"))
-    for f in ("wallet.json.new",):
-        if os.path.exists(os.path.join(work, f)):
+    for f in os.listdir(work):
+        if f.startswith("wallet.json.") or f == "expected.json":
             os.remove(os.path.join(work, f))
+
+
+def followup_save(a, work, w, what):
+    """after a crash the user restarts and saves again (a shorter wallet): whatever the crashed save left behind must not
+    damage the result of a COMPLETED save"""
+    state = load_json(os.path.join(work, "wallet.json"))
+    if not isinstance(state, dict):
+        return
+    rc, out, err = crash.run_plain(["save-wallet-followup"], work)
+    a.n += 1
+    a.inc("followup_saves_after_crash")
+    if rc != 0:
+        a.v("save-after-crash-fails", "%s, then a restart and a normal save: the save raised: %s" % (what, err[-200:]), w)
+        return
+    got = load_json(os.path.join(work, "wallet.json"))
+    want = load_json(os.path.join(work, "expected.json"))
+    if got != want:
+        kind = "unparsable" if isinstance(got, str) else "differs"
+        a.v("completed-save-after-crash-corrupt:" + kind, "%s, then a restart and a COMPLETED save: wallet.json is %s (%s)" % (
+            what, kind, str(got)[:80] if isinstance(got, str) else "not the wallet that was saved"), w)
 
 
 def judge(a, state, old, new, w, what):
@@ -282,8 +302,9 @@ def lane_crash_syscall(a, spec):
         a.inc("kills_by_syscall:" + name)
         a.digests.add(digest("sys", spec["keys"], n))
         state = load_json(os.path.join(work, "wallet.json"))
-        judge(a, state, old, new, {"lane": "crash-syscall", "keys": spec["keys"], "point": n, "syscall": text[:100]},
-              "SIGKILL on entry to syscall #%d of the save (%s)" % (n, text[:60]))
+        ww = {"lane": "crash-syscall", "keys": spec["keys"], "point": n, "syscall": text[:100]}
+        judge(a, state, old, new, ww, "SIGKILL on entry to syscall #%d of the save (%s)" % (n, text[:60]))
+        followup_save(a, work, ww, "SIGKILL on entry to syscall #%d of a save (%s)" % (n, text[:40]))
     if spec["part"] == 0:
         a.samples.append({"lane": "crash-syscall", "keys": spec["keys"], "region": [p[2][:70] for p in pts[:8]],
                           "syscalls_by_name": names})
@@ -311,8 +332,9 @@ def lane_crash_line(a, spec):
         a.inc("line_exits_landed")
         a.digests.add(digest("line", spec["keys"], k))
         state = load_json(os.path.join(work, "wallet.json"))
-        judge(a, state, old, new, {"lane": "crash-line", "keys": spec["keys"], "line_event": k},
-              "process exit at statement boundary #%d of the save" % k)
+        ww = {"lane": "crash-line", "keys": spec["keys"], "line_event": k}
+        judge(a, state, old, new, ww, "process exit at statement boundary #%d of the save" % k)
+        followup_save(a, work, ww, "process exit at statement boundary #%d of a save" % k)
     shutil.rmtree(work, ignore_errors=True)
 
 
@@ -390,6 +412,7 @@ def finalize(m, tier):
                    ("balances_compared", c.get("balances_compared", 0), 100), ("crash points landed", landed, 30),
                    ("crash_left_old_wallet", c.get("crash_left_old_wallet", 0), 10),
                    ("crash_left_new_wallet", c.get("crash_left_new_wallet", 0), 3),
-                   ("address_printed_before_kill", c.get("address_printed_before_kill", 0), 1)],
+                   ("address_printed_before_kill", c.get("address_printed_before_kill", 0), 1),
+                   ("followup_saves_after_crash", c.get("followup_saves_after_crash", 0), 30)],
         "extra": {"crash_points_exhaustive_per_save": True},
     }
